@@ -128,7 +128,7 @@ def build() -> Check:
         elif after[-1][1] is False and not (t.outcome == "return" and isinstance(t.value, Const) and t.value.value is True):
             bad.append((f"acquire ends with {t.outcome}", t))
         n_ok += 1
-    ck.floor("acquire_paths", len(traces["acquire"]), 3)
+    ck.floor("acquire_paths", len(traces["acquire"]), 2)
     ck.ob("R2.enqueue-before-wait", fn_construct(acq), not bad, (bad[0][0] + ": " + sig(bad[0][1])) if bad else f"{n_ok} enqueuing paths")
 
     # ---- release -----------------------------------------------------------------------------------
@@ -158,7 +158,7 @@ def build() -> Check:
             bad.append((f"release wakes {[e.data['recv'] for e in sets]} instead of the head (index 0)", t))
         if d2.get("truthy(lock._waiters)") is None:
             bad.append(("after removing the holder the queue is not examined for a successor", t))
-    ck.floor("release_paths", len(traces["release"]), 3)
+    ck.floor("release_paths", len(traces["release"]), 2)
     ck.ob("R4.release-wakes-head", fn_construct(rel), not bad, (bad[0][0] + ": " + sig(bad[0][1])) if bad else "")
 
     # ---- __exit__ -----------------------------------------------------------------------------------
@@ -190,7 +190,7 @@ def build() -> Check:
         first_truthy = [v for k, v in t.pc if k == "truthy(lock._waiters)"]
         if not pops and not (t.outcome == "raise"):
             bad.append(("__exit__ does not release the lock", t))
-    ck.floor("exceptional_exit_paths", n_exc, 2)
+    ck.floor("exceptional_exit_paths", n_exc, 1)
     ck.ob("R4.exceptional-exit-breaks-and-wakes-all", fn_construct(ex), not bad, (bad[0][0] + ": " + sig(bad[0][1])) if bad else "")
     ent = ol.methods["__enter__"]
     ck.ob("R2.enter-acquires", fn_construct(ent), "self.acquire()" in ast.unparse(ent.node), "__enter__ must acquire")
